@@ -4,6 +4,7 @@ import (
 	"fmt"
 	"go/token"
 	"math"
+	"strings"
 
 	"golang.org/x/tools/go/ssa"
 
@@ -20,6 +21,7 @@ func c16(r *core.Run) {
 	r.Explanation = "Static rules over the two registration handlers (rns.MsgRegister, rns.MsgRegisterName): the debit and the POL credit are one SSA value that depends on the TLD cost table and the requested years; bank errors propagate to a failing return; every reaching definition of the stored Names.Expires adds a base (current height, or the old expiry only under a live comparison); a found record owned by someone else is overwritten only behind an expired comparison. Decides the structural causes of 'charges the listed price and yields a live name for the term', not the numeric '>= Y years'."
 	r.Assumptions = []string{T1, T3, T4}
 	r.NotDecided = []string{"the numeric bound 'unexpired for at least Y years'", "exact price tiers (control dependence on name length)"}
+	r.Rule("C16/R9", "no dead price tier: wherever the rns module looks a value up in a package-level table, the interval the dominating guards leave for the index covers every written entry of the table (an entry no admitted index selects is a listed price that is never charged)")
 	r.Rule("C16/R8", "the price (cost x years) and the term (years x blocks-per-year + base height) are computed only behind division-form overflow tests on the message's year count (or on paths where it is not positive)")
 	r.Rule("C16/R7", "the TLD of a requested name is recognised by a suffix test (name[len(name)-len(tld):] == tld or strings.HasSuffix) in the keeper's parser and in the validation copy: the recognised TLD is what is cut off, priced and stored")
 	r.Rule("C16/R6", "block-height arithmetic is dimensionally consistent: absolute heights (Ctx.BlockHeight and fields assigned from it) are compared only with absolute heights, intervals/offsets/parameters only with each other (point - point = span, point ± span = point), followed through helper calls with the dimensions of the actual arguments")
@@ -30,6 +32,7 @@ func c16(r *core.Run) {
 	r.Rule("C16/R3", "a found name owned by another account is overwritten only behind an expired comparison (same guard row as C08/R1 for registration)")
 	heightDimensions(r, "C16/R6", moduleFuncs(p, "rns"), 3)
 	tldRecognisers(r, "C16/R7")
+	r.Extra["guarded_table_lookups"] = tableEntriesReachable(r, "C16/R9", moduleFuncs(p, "rns"))
 	hs, err := p.Handlers()
 	if err != nil {
 		r.Undecided("C16/R1", "handlers", "", err.Error())
@@ -182,14 +185,103 @@ func checkExpiryDefs(r *core.Run, h *core.Handler) {
 					continue
 				}
 				found++
-				var leaves []ssa.Value
-				phiLeaves(st.Val, map[ssa.Value]bool{}, &leaves)
-				for i, lf := range leaves {
-					pr := p.ProvAt(lf, "", st)
+				// the reaching definitions of the stored expiry; a definition that is a field of a record handed in by
+				// a sibling (validate, then apply) is followed to the place where that field was assigned
+				type def struct {
+					fn    *ssa.Function
+					v     ssa.Value
+					at    ssa.Instruction
+					extra []ssa.Value     // operands added to the base after the join (base + term)
+					where ssa.Instruction // the place where this alternative is chosen (end of the phi's predecessor)
+				}
+				var defs []def
+				var collect func(dfn *ssa.Function, v ssa.Value, at ssa.Instruction, depth int)
+				collect = func(dfn *ssa.Function, v ssa.Value, at ssa.Instruction, depth int) {
+					type leafT struct {
+						v     ssa.Value
+						extra []ssa.Value
+						where ssa.Instruction
+					}
+					var leaves []leafT
+					seenPhi := map[ssa.Value]bool{}
+					var expand func(x ssa.Value, extra []ssa.Value, where ssa.Instruction)
+					expand = func(x ssa.Value, extra []ssa.Value, where ssa.Instruction) {
+						switch y := x.(type) {
+						case *ssa.Phi:
+							if seenPhi[y] {
+								return
+							}
+							seenPhi[y] = true
+							for i, e := range y.Edges {
+								pb := y.Block().Preds[i]
+								expand(e, extra, pb.Instrs[len(pb.Instrs)-1])
+							}
+							return
+						case *ssa.BinOp:
+							// base + term with the base chosen by a join: one definition per alternative
+							if y.Op == token.ADD {
+								if _, isPhi := y.X.(*ssa.Phi); isPhi {
+									expand(y.X, append(append([]ssa.Value{}, extra...), y.Y), where)
+									return
+								}
+								if _, isPhi := y.Y.(*ssa.Phi); isPhi {
+									expand(y.Y, append(append([]ssa.Value{}, extra...), y.X), where)
+									return
+								}
+							}
+						}
+						leaves = append(leaves, leafT{x, extra, where})
+					}
+					expand(v, nil, nil)
+					for _, leaf := range leaves {
+						lf := leaf.v
+						atoms := p.ProvAt(lf, "", at).DataAtoms()
+						if depth < 2 && len(atoms) == 1 && atoms[0].Kind == "param" && atoms[0].Fn == dfn && atoms[0].Path != "" && !strings.Contains(atoms[0].Path[1:], ".") {
+							pt := dfn.Params[atoms[0].Idx].Type()
+							field := strings.TrimPrefix(atoms[0].Path, ".")
+							n := 0
+							for _, g := range p.Summary(h.Fn).Funcs {
+								var stores []*ssa.Store
+								allInstrs(g, func(in2 ssa.Instruction) {
+									st2, ok := in2.(*ssa.Store)
+									if !ok {
+										return
+									}
+									fa2, ok := st2.Addr.(*ssa.FieldAddr)
+									if !ok || fieldNameOf(fa2) != field || core.TypeName(fa2.X.Type()) != core.TypeName(pt) {
+										return
+									}
+									stores = append(stores, st2)
+								})
+								// only an assignment that can be the last one before the record is handed on counts
+								for _, st2 := range stores {
+									if !lastAssignment(p, g, st2, stores) {
+										continue
+									}
+									n++
+									collect(g, st2.Val, st2, depth+1)
+								}
+							}
+							if n > 0 {
+								continue
+							}
+						}
+						defs = append(defs, def{dfn, lf, at, leaf.extra, leaf.where})
+					}
+				}
+				collect(fn, st.Val, st, 0)
+				for i, d := range defs {
+					lf := d.v
+					pr := p.ProvAt(lf, "", d.at)
+					for _, ex := range d.extra {
+						for k, a := range p.ProvAt(ex, "", d.at) {
+							pr[k] = a
+						}
+					}
 					hasH := pr.HasCtx("BlockHeight")
 					hasE := pr.HasStore(rnsNames, ".Expires")
 					c := fmt.Sprintf("%s:expiry-def#%d", key, i)
-					pos := p.InstrPos(st)
+					pos := p.InstrPos(d.at)
 					if vi, ok := lf.(ssa.Instruction); ok {
 						pos = p.InstrPos(vi)
 					}
@@ -199,12 +291,14 @@ func checkExpiryDefs(r *core.Run, h *core.Handler) {
 					case hasE:
 						// must be under a live comparison
 						vi, ok := lf.(ssa.Instruction)
+						if d.where != nil {
+							vi, ok = d.where, true // the alternative is chosen at the end of the join's predecessor
+						}
 						if !ok {
 							r.Undecided("C16/R2", c, pos, "definition is not an instruction")
 							continue
 						}
-						live := p.PassEdges(fn, cmpGuard(p, ctxIs("BlockHeight"), storeField(rnsNames, ".Expires"), "<", "<="))
-						if core.PathExists(fn, live, vi, nil) {
+						if p.ReachesUnguarded(d.fn, vi, cmpGuard(p, ctxIs("BlockHeight"), storeField(rnsNames, ".Expires"), "<", "<=")) {
 							r.Violation("C16/R2", key+":expiry-extends-stale", pos, "the new expiry is based on the stored expiry on a path that never checked the name is still live: renewing an expired name yields a term shorter than paid for (possibly already expired)")
 						} else {
 							r.Ok("C16/R2", c, pos, "base = old expiry, only under a live comparison")
@@ -476,4 +570,51 @@ func yearArithmeticGuarded(r *core.Run, rule string, h *core.Handler) {
 		})
 	}
 	r.Floor(rule, n, 3, "arithmetic sites on the year count")
+}
+
+// lastAssignment: some path from st to a commit return of fn performs none of the other stores (to the same field).
+func lastAssignment(p *core.Program, fn *ssa.Function, st *ssa.Store, all []*ssa.Store) bool {
+	blocked := map[core.Edge]bool{}
+	for _, o := range all {
+		if o == st {
+			continue
+		}
+		if o.Block() == st.Block() {
+			// a later store in the same block overwrites this one
+			after := false
+			for _, in := range st.Block().Instrs {
+				if in == ssa.Instruction(st) {
+					after = true
+				} else if in == ssa.Instruction(o) && after {
+					return false
+				}
+			}
+			continue
+		}
+		for e := range blockEdgesInto(fn, o) {
+			blocked[e] = true
+		}
+	}
+	for _, ri := range p.Returns(fn) {
+		if ri.Class == core.RetFail {
+			continue
+		}
+		// from the store onwards (how the store was reached does not matter)
+		seen := map[*ssa.BasicBlock]bool{st.Block(): true}
+		work := []*ssa.BasicBlock{st.Block()}
+		for len(work) > 0 {
+			b := work[len(work)-1]
+			work = work[:len(work)-1]
+			if b == ri.Ret.Block() {
+				return true
+			}
+			for i, sc := range b.Succs {
+				if !blocked[core.Edge{From: b, Succ: i}] && !seen[sc] {
+					seen[sc] = true
+					work = append(work, sc)
+				}
+			}
+		}
+	}
+	return false
 }
